@@ -3,6 +3,7 @@
 #include <signal.h>
 #include <stdio.h>
 #include <string.h>
+#include <stdlib.h>
 #include <algorithm>
 
 namespace sim {
@@ -24,7 +25,7 @@ static std::string DepfileEscape(const std::string& p) {
 
 // ------------------------------------------------------------------ world basics
 std::string World::SourceContent(const std::string& p) const {
-  if (const DyndepFile* d = sc.FindDyndep(p)) if (d->producer < 0) return sc.DyndepText(*d);
+  if (const DyndepFile* d = sc.FindDyndep(p)) if (d->producer < 0) { auto o = dd_override.find(p); return o != dd_override.end() ? o->second : sc.DyndepText(*d); }
   if (emptied.count(p)) return "";
   auto it = version.find(p);
   auto inc = inc_version.find(p);
@@ -65,6 +66,7 @@ void World::Report(const std::string& prop, const std::string& cls, const std::s
 static void AddInputs(const Scenario& sc, const Stmt& s, std::vector<std::string>* v) {
   v->insert(v->end(), s.ins.begin(), s.ins.end());
   v->insert(v->end(), s.imp_ins.begin(), s.imp_ins.end());
+  v->insert(v->end(), s.extra_imp.begin(), s.extra_imp.end());
   v->insert(v->end(), s.oo_ins.begin(), s.oo_ins.end());
   if (const DyndepEntry* e = sc.DyndepFor(s.id)) v->insert(v->end(), e->imp_ins.begin(), e->imp_ins.end());
 }
@@ -208,6 +210,11 @@ ChildPlan World::OnSpawn(Kernel& kk, const std::string& cmd, bool console) {
   }
   std::string rsp_content = sc.RspContent(s);
   std::vector<std::string> hidden = ActiveHidden(sc, s, get);
+  if (getenv("SIM_DEBUG_READSET")) {
+    std::string m = "[" + label + "] statement " + std::to_string(id) + " reads:";
+    for (auto& kv : snap) m += " " + kv.first + "=" + JsonEscape(kv.second);
+    HPrintf("%s\n", m.c_str());
+  }
 
   // ---- scripted behaviour
   int64_t dur = (1 + (int64_t)tape->Choice(st_stream, 8)) * 1000000;
@@ -255,12 +262,11 @@ ChildPlan World::OnSpawn(Kernel& kk, const std::string& cmd, bool console) {
   Stmt sv = s;
   const DyndepEntry* de = sc.DyndepFor(id);
   bool restat = s.restat || (de && de->restat);
-  (void)restat;
   uint64_t myseq = rec.seq;
   ChildStep eff;
   eff.kind = ChildStep::kEffect;
   eff.at_ns = dur;
-  eff.fn = [self, scp, outs, sv, snap, rsp_content, rs, hidden, status, fail_mode, myseq](Kernel& k2, Child& c) {
+  eff.fn = [self, scp, outs, sv, snap, rsp_content, rs, hidden, status, fail_mode, myseq, restat](Kernel& k2, Child& c) {
     bool partial = c.killed || (status != 0 && fail_mode == 2);
     bool none = status != 0 && fail_mode == 0 && !c.killed;
     if (none) return;
@@ -269,7 +275,14 @@ ChildPlan World::OnSpawn(Kernel& kk, const std::string& cmd, bool console) {
     for (size_t i = 0; i < outs.size(); i++) {
       std::string content = OutputContent(sv, (int)i, snap, rsp_content);
       const DyndepFile* d = scp->FindDyndep(outs[i]);
-      if (d && d->producer == sv.id) content = scp->DyndepText(*d);
+      if (d && d->producer == sv.id) {
+        content = scp->DyndepText(*d);
+        auto ov = self->dd_override.find(outs[i]);
+        if (ov != self->dd_override.end()) {
+          if (ov->second == "<absent>") { k2.Remove(outs[i]); continue; }
+          content = ov->second;
+        }
+      }
       if (sv.regen && outs[i] == "build.ninja") {
         if (self->has_pending) { self->sc = self->pending; self->has_pending = false; }
         content = self->sc.ManifestText();
@@ -282,7 +295,8 @@ ChildPlan World::OnSpawn(Kernel& kk, const std::string& cmd, bool console) {
       }
       std::string have;
       bool exists = k2.ReadFile(outs[i], &have);
-      if (sv.restat && exists && have == content && status == 0 && !partial) { self->stats->n["restat_untouched"]++; continue; }
+      // a restat command (by its rule or by its dyndep file) leaves an unchanged output alone
+      if (restat && exists && have == content && status == 0 && !partial) { self->stats->n["restat_untouched"]++; continue; }
       k2.MkdirP(Dirname(outs[i]).empty() ? "/w" : Dirname(outs[i]));
       k2.WriteFile(outs[i], content);
       k2.Trace(Ev::kChildEffect, c.pid, sv.id, outs[i]);
